@@ -83,7 +83,7 @@ def check_conversion(out, c, src_terms, dst_terms, mag, gen, prop="C04"):
         return None
     ratio = c.sizes.ratio(src, dst)
     classes = domain.pair_classes(src, dst, c.One)
-    q = mag * src
+    q = convgen.quantity(mag, src, dst, classes=out.classes)
     try:
         got = q.in_unit(dst)
         exc = None
